@@ -51,9 +51,11 @@ func init() {
 		it.Assume(it.C.BVUlt(t, it.C.BVU(uint64(n), 64)))
 		for k := 0; k < n-1; k++ {
 			if it.Branch(it.C.Eq(t, it.C.BVU(uint64(k), 64))) {
+				it.P.Picks = append(it.P.Picks, k)
 				return it.C.BVI(int64(k), 64)
 			}
 		}
+		it.P.Picks = append(it.P.Picks, n-1)
 		return it.C.BVI(int64(n-1), 64)
 	})
 	R(VS+"Bytes", func(it *Interp, _ *ssa.Function, a []Value) Value {
